@@ -494,10 +494,11 @@ class HashRule(ABC):
             symbol_part += "."
             part_i = parts[i]
             symbol_part += part_i
-            ref_to_resolve = ref
 
-            def resolver():
-                return getattr(ref_to_resolve, part_i)
+            # Resolve the whole chain again from the global table each time: an object on the
+            # way (e.g. a class that was defined again) may have been rebound since.
+            def resolver(parent_resolver=resolver, part_i=part_i):
+                return getattr(parent_resolver(), part_i, None)
 
             ref = resolver()
             rule = resolve_symbol(parent_symbol, symbol_part, resolver, ref)
